@@ -1,5 +1,5 @@
 (* Props_C11.v — C11: suspicion timeout takes effect iff unrefuted; Down is final until forgotten. *)
-From Foca Require Import L_TimeoutLast.
+From Foca Require Import L_TimeoutLast L_Evidence L_Monotone.
 From Foca Require Import Laws L_Lists MembersM FocaM L_Members L_MembersInv L_Join L_Forward L_Reject L_Timeout.
 From Coq Require Import Permutation.
 
@@ -92,6 +92,17 @@ Theorem C11_effective_last_member (rnd : oracle) (f : @foca Id Addr HO) (x : Id)
                  inner ms' = set_nth p (mkMember x inc Down) (inner (mems f)).
 Proof. exact (timeout_effective_last rnd f x inc k). Qed.
 
+(* DOWN IS FINAL UNTIL FORGOTTEN, over whole call histories (datagrams, timers, API calls, any order):
+   as long as no forget-timer fires, the address of a Down record keeps a record, and it is the same
+   identity still Down, or an identity that wins the address conflict against it *)
+Theorem C11_down_final_along_histories (rnd : oracle) (l : list (@input Id)) (f : @foca Id Addr HO) (a : Addr) (k : member Id) :
+  no_forget l -> uniq (inner (mems f)) -> view (mems f) a = Some k -> m_state k = Down ->
+  exists k', view (mems (run_calls rnd f l)) a = Some k'
+    /\ ((m_id k' = m_id k /\ m_state k' = Down) \/ wins (m_id k') (m_id k) = true).
+Proof.
+  intros NF U V D. destruct (history_down_final rnd l f a k NF U V) as (k' & V' & _ & H). exists k'. auto.
+Qed.
+
 End C11.
 
 Print Assumptions C11_stale_epoch_noop.
@@ -100,3 +111,4 @@ Print Assumptions C11_effective.
 Print Assumptions C11_down_final.
 Print Assumptions C11_forget_exact.
 Print Assumptions C11_effective_last_member.
+Print Assumptions C11_down_final_along_histories.
